@@ -124,6 +124,27 @@ def raiser(env, kind, message):
     if kind == "ValueError":
         def f():
             raise ValueError(message)
+    elif kind == "TypeError":
+        def f():
+            raise TypeError(message)
+    elif kind == "chain-cycle":
+        # two exceptions naming each other as cause (and one that is its own cause)
+        def f():
+            a, b = ValueError(message), RuntimeError("other end of the cycle")
+            a.__cause__, b.__cause__ = b, a
+            if len(message) % 2:
+                a.__cause__ = a
+            raise a
+    elif kind == "chain-long":
+        def f():
+            e = KeyError("link 0")
+            for i in range(1500):
+                n = RuntimeError("link %d" % (i + 1))
+                n.__cause__ = e
+                e = n
+            top = ValueError(message)
+            top.__cause__ = e
+            raise top
     elif kind == "KeyError":
         def f():
             raise KeyError(message)
@@ -248,11 +269,11 @@ def raiser(env, kind, message):
     return f
 
 
-EXC_KINDS = ["ValueError", "KeyError", "custom-0", "custom-7", "custom-999", "custom-none", "custom-x", "custom-float", "custom-nan", "custom-true", "custom-neg",
+EXC_KINDS = ["ValueError", "TypeError", "chain-cycle", "chain-long", "KeyError", "custom-0", "custom-7", "custom-999", "custom-none", "custom-x", "custom-float", "custom-nan", "custom-true", "custom-neg",
              "custom-huge", "custom-decimal", "custom-fraction", "custom-method", "custom-absent", "library", "clikit-base", "interrupt",
              "chain-from", "chain-implicit", "chain-same-message", "chain-context-message", "sourceless", "sourceless-markup-name", "sourceless-middle", "deleted-file", "latin1-file", "non-python-file"]
 VERBOSITY = [[], ["-v"], ["-vv"], ["-vvv"]]
-LISTENERS = ["none", "passes", "handles-0", "handles-5", "handles-300", "handles-default", "raises"]
+LISTENERS = ["none", "passes", "handles-0", "handles-5", "handles-300", "handles-default", "raises", "handles-7-status-first", "handles-5-two-listeners"]
 
 
 def run_case(sh, env, outcome, msg_class, vflags, listener, ansi, quiet=False, line=None, style=None):
@@ -284,6 +305,16 @@ def run_case(sh, env, outcome, msg_class, vflags, listener, ansi, quiet=False, l
             cfg.add_event_listener(env.PRE_HANDLE, lambda event, name, d: None)
         elif listener == "handles-default":
             # marks the event handled and leaves the event's default status
+            cfg.add_event_listener(env.PRE_HANDLE, lambda event, name, d: event.handled(True))
+        elif listener == "handles-7-status-first":
+            # the status is set before the event is marked as handled
+            def handle_sf(event, name, d):
+                event.set_status_code(7)
+                event.handled(True)
+            cfg.add_event_listener(env.PRE_HANDLE, handle_sf)
+        elif listener == "handles-5-two-listeners":
+            # one listener sets the status, a later one marks the event as handled
+            cfg.add_event_listener(env.PRE_HANDLE, lambda event, name, d: event.set_status_code(5))
             cfg.add_event_listener(env.PRE_HANDLE, lambda event, name, d: event.handled(True))
         elif listener.startswith("handles-"):
             code = int(listener.split("-")[1])
